@@ -30,16 +30,16 @@ def check(pid, level, text, note, technique, ref):
 
 CHECKS = {
  "C01": check("C01", "exploration",
-   "Seeded search over delivery schedules: every run partitions a seeded signal into chunks per live replica (adversarial cuts at/around turning points and inside plateaus, length-1 chunks, >=3 chunks, now and then thousands of tiny chunks or recordings beyond 2**16 samples), interleaves 1-4 live 3-point/4-point/FKM detector instances with four recorder kinds (incl. two user-written ones), delivers chunks in several containers and dtypes, overwrites the caller's buffer after the call in 30% of the runs, and after every delivery compares the replica with a fresh one-piece replica of the consumed prefix and maps every reported global index back through the chunk bookkeeping to the sample actually delivered. A canary scenario detects process-wide state left behind by a run. Sampling, not proof; the right level because the space (signals x partitions x interleavings) is unbounded.",
-   "Trusted: the one-piece replica of the working tree as reference (its meaning is pinned independently by C02), float64 ndarray chunks. Minimised witnesses are replayed in a fresh interpreter under another PYTHONHASHSEED before being reported.",
+   "Seeded search over delivery schedules: every run partitions a seeded signal into chunks per live replica (adversarial cuts at/around turning points and inside plateaus, length-1 chunks, >=3 chunks, now and then thousands of tiny chunks or recordings beyond 2**16 samples), interleaves 1-4 live 3-point/4-point/FKM detector instances with five recorder kinds (incl. three user-written ones, one of which works inside the callbacks: look-ups in the chunk bookkeeping and a second detector fed from within record_values - the only pre-emption points of this code), delivers chunks in several containers and dtypes (also changing from block to block), injects refused blocks (a malformed block raises, is caught, the history goes on), overwrites the caller's buffer after the call in 30% of the runs, and after every delivery compares the replica with a fresh one-piece replica of the consumed prefix and maps every reported global index back through the chunk bookkeeping to the sample actually delivered. A canary scenario detects process-wide state left behind by a run. Sampling, not proof; the right level because the space (signals x partitions x interleavings) is unbounded.",
+   "Trusted: the one-piece replica of the working tree as reference (its meaning is pinned independently by C02). Thorough tier only: a marathon with about 2**24 turning points in one call, one piece against chunks. Minimised witnesses are replayed in a fresh interpreter under another PYTHONHASHSEED before being reported.",
    "deterministic simulation: seeded chunk-delivery scheduler over interleaved live detector replicas, prefix-refinement oracle against a single-copy reference, ddmin-minimised replay traces", "DESIGN.md 4.1"),
  "C02": check("C02", "exploration",
    "The executable four-point / HCM definition (models/rainflow_ref.py) is the simulator's sequential specification: one-piece replicas of all three detectors and find_turns are compared with it on seeded signals with heavy ties and plateaus (I3), and under every seeded chunk schedule the exactly-once accounting of turning points (cycle ends + residual = turning points of the consumed prefix, indices address their values) is checked at every border (I4).",
-   "Trusted: models/rainflow_ref.py (written from the statement). I3 itself has no schedule in it; the schedule-dependent content is I4.",
+   "Trusted: models/rainflow_ref.py (written from the statement). I3 itself has no schedule in it; the schedule-dependent content is I4. Thorough tier only: marathon histories whose sample counter passes 2**31 / 2**32 (closed-form signal, closed-form turning points).",
    "deterministic simulation: reference-model (sequential specification) oracle plus exactly-once accounting invariant checked at every chunk border of seeded delivery schedules", "DESIGN.md 4.2"),
  "C03": check("C03", "exploration",
    "Fault-injecting configuration of the stream world: a twin replica receives the signal with injected non-reversal samples (duplicates, intermediate points, slope plateaus, trailing duplicates), NaN samples, negated, exactly affinely mapped, or wrapped in a pandas Series with seven index types; its cycles, residuals and indices must equal the image of the reference replica's. Each fault kind is counted when it fires.",
-   "Trusted: dyadic signals so that the injected samples and affine maps are exact; one-chunk delivery (chunking is C01).",
+   "Trusted: dyadic signals so that the injected samples and affine maps are exact; the reference replica is fed in one piece, the twin in seeded chunks in 40% of the runs. Thorough tier only: a refinement twin of 2**31 / 2**32 samples against its reversal sequence.",
    "deterministic simulation: seeded stream-fault injection (duplicate / intermediate / NaN samples) into a twin replica compared with an unfaulted reference replica", "DESIGN.md 4.3"),
  "C20": check("C20", "fault_enumeration",
    "Histories of add_geometry / add_node_set / add_element_set / add_variable / read-back calls (incl. calls that must raise) on one exporter and one real HDF5 file, compared with an in-memory model through the public importer after every step; for the faulted operation of a history ENOSPC is raised before, or EIO after, a seam call (h5py create_group / create_dataset / attribute create) - thorough tier: every seam call of that operation in both modes, each from a byte copy of the file - followed by the 'failed => absent, rest intact, counters consistent' comparison and an unfaulted retry that must succeed. Enumerates the fault points of the operation; samples histories and meshes.",
